@@ -18,6 +18,7 @@ func init() {
 }
 
 func runC11(c *Ctx, r *Run) {
+	checkResultsUsed(c, r, "USE-1", 100)
 	r.Rule("DEP-N1", "FROST nonces: D_i and E_i depend on the secret share, the session hash, the message and fresh randomness")
 	r.Rule("DEP-N2", "BIP-340 nonce: depends on secret key, message, public key and aux (reader or atomic counter)")
 	r.Rule("START-S3", "the session identifier that separates two signing sessions reaches the session hash the nonces are derived from")
@@ -139,4 +140,15 @@ func runC11(c *Ctx, r *Run) {
 	checkSessionIDForwarded(c, r, "START-S3")
 	r.Require("START-S3", 8)
 	r.Require("DEP-N3", 2)
+	// the session hash the nonces are derived from separates protocol variants, curves, signer sets and thresholds only
+	// if NewSession writes each of them (rule shared with C09)
+	r.Rule("DEP-5", "tag completeness: every field of round.Info, the session id and every auxiliary item are written into the session hash")
+	sub := NewRun("tmp", r.Tier)
+	runC09(c, sub)
+	for _, o := range sub.Obs {
+		if o.Rule == "DEP-5" {
+			r.Check("DEP-5", o.Key, o.Pos, o.Held, o.Desc, o.Detail)
+		}
+	}
+	r.Require("DEP-5", 6)
 }
